@@ -378,7 +378,38 @@ class Frag:
                 R[ins.res] = self.val(ins.ops[0])
                 return None
             if callee in self.intrinsics:
-                R[ins.res] = self.intrinsics[callee](*[self.val(o) for o in ins.ops])
+                r = self.intrinsics[callee](*[self.val(o) for o in ins.ops])
+                if ins.res is not None:
+                    R[ins.res] = r
+                return None
+            if callee.startswith('llvm.memcpy') or callee.startswith('llvm.memmove'):
+                dst, src, n = self.val(ins.ops[0]), self.val(ins.ops[1]), self.val(ins.ops[2])
+                if not (isinstance(dst, Ptr) and isinstance(src, Ptr)) or isinstance(n, Ptr) or n > 4096:
+                    raise Unknown('memcpy with non-constant operands')
+
+                def elem(p, i):
+                    path = list(p.path)
+                    if path and isinstance(path[-1], int):
+                        path[-1] += i
+                    else:
+                        path.append(i)
+                    return Ptr(p.root, path, 1)
+                for i in range(n):
+                    v = self.load(elem(src, i), ins)
+                    self.mem[elem(dst, i).key()] = v
+                    self.stores.append((elem(dst, i).key(), v, ins))
+                return None
+            if callee.startswith('llvm.memset'):
+                dst, v, n = self.val(ins.ops[0]), self.val(ins.ops[1]), self.val(ins.ops[2])
+                if not isinstance(dst, Ptr) or isinstance(n, Ptr) or n > 4096:
+                    raise Unknown('memset with non-constant operands')
+                for i in range(n):
+                    path = list(dst.path)
+                    if path and isinstance(path[-1], int):
+                        path[-1] += i
+                    else:
+                        path.append(i)
+                    self.mem[(dst.root, tuple(path))] = v & 0xFF
                 return None
             raise Unknown('call to %s inside an evaluated fragment' % callee)
         raise Unknown('opcode %s inside an evaluated fragment' % op)
